@@ -128,6 +128,12 @@ Definition blockattributes_parse (attrs : str) : M bool :=
       end
   end.
 
+(* `if has_id or id in ids: errorCallback(...) else: ids.insert(0, id)` as one step *)
+Definition register_or_report (has_id : bool) (id : str) (s : session) : session :=
+  if has_id || mem id (s_ids s)
+  then set_log s ((s_cb s, $"duplicate 'id' attribute: " ++ id) :: s_log s)
+  else set_ids s (id :: s_ids s).
+
 Definition injectHtmlAttributes (tag : str) (consume : bool) : M str :=
   match tag with
   | [] => ret tag
@@ -151,9 +157,7 @@ Definition injectHtmlAttributes (tag : str) (consume : bool) : M str :=
            let has_id := match re_search re_blockattributes_injectHtmlAttributes_1 result with
                          | Some _ => true | None => false end in
            (* `if has_id or id in ids: errorCallback(...) else: ids.insert(0, id)` as one step *)
-           modify (fun s => if has_id || mem id (s_ids s)
-                            then set_log s ((s_cb s, $"duplicate 'id' attribute: " ++ id) :: s_log s)
-                            else set_ids s (id :: s_ids s)) ;;;
+           modify (register_or_report has_id id) ;;;
            ret (if has_id then attrs else attrs ++ $" id=""" ++ id ++ [34])
          else ret attrs) ;;
       (* css *)
@@ -290,7 +294,7 @@ Definition replacements_setDefinition (pattern flags replacement : str) : M unit
   let ml := existsb (N.eqb 109) flags in
   match parse_regex pattern ic ml with
   | PUnsupported => raise ExUnsupported
-  | PError => raise ExReError
+  | PError => log_msg ($"illegal replacement regular expression: " ++ pattern)
   | POk rx =>
       let fl := (if ic then 2 else 0) + (if ml then 8 else 0) in
       modify (fun s =>
